@@ -382,13 +382,13 @@ static void cmd_gssvx(kv_t *K)
 	vrt_log_raw("\"e\":\"Call\",\"call\":\"gssvx\",\"P\":%d,\"n\":%d,\"stype\":%d,\"fact\":\"%s\",\"refact\":%d,\"usepr\":%d,\"trans\":\"%c\",\"lwmode\":%d,\"nrhs\":%d,\"sym\":%d,"
 		    "\"ver\":%d,\"factver\":%d,\"info\":%ld,\"xerbla\":%d,\"xinfo\":%d,\"equed\":%d,\"Aok\":%d,\"Aunch\":%d,\"Bok\":%d,\"Xunch\":%d,\"permunch\":%d,\"Lunch\":%d,"
 		    "\"permc\":%d,\"permr\":%d,\"omega\":%ld,\"berrdev\":%ld,\"berrabs\":%ld,\"ferrok\":%ld,\"rclo\":%ld,\"rchi\":%ld,\"rpgdev\":%ld,\"cond\":%ld,"
-		    "\"rcondsmall\":%d,\"needed\":%ld,\"inside\":%d,\"thr0\":%d,\"thr1\":%d,\"live0\":%ld,\"live1\":%ld,\"u1000\":%d",
+		    "\"rcondsmall\":%d,\"needed\":%ld,\"inside\":%d,\"thr0\":%d,\"thr1\":%d,\"live0\":%ld,\"live1\":%ld,\"u1000\":%d,\"prpc\":%d",
 		    P, n, S.stype, facts, refact, usepr, trs[0], lwork > 0 ? 1 : (int) lwork, nrhs, sym, S.ver, S.factver, (long) info, vrt_xerbla_count, vrt_xerbla_info, eqv,
 		    Aok, Aunch, Bok, Xunch, permunch, Lunch, is_perm(S.perm_c, n), S.haveLU ? is_perm(S.perm_r, n) : -1,
 		    omega, berrdev, berrabs, ferrok, rc_lo, rc_hi, rpgdev, condk,
 		    (rcond >= 0 && rcond < mach_eps()) ? 1 : 0, (long) (mu.total_needed > 2000000000.0f ? 2000000000L : (long) mu.total_needed),
 		    (S.haveLU && S.LUuser) ? ((char *) ((SCPformat *) S.L.Store)->nzval >= (char *) S.work && (char *) ((SCPformat *) S.L.Store)->nzval < (char *) S.work + S.lwork) : -1,
-		    thr0, thr1, live0, live1, (int) (u * 1000));
+		    thr0, thr1, live0, live1, (int) (u * 1000), (S.haveLU && !memcmp(S.perm_r, S.perm_c, sizeof(int_t) * n)) ? 1 : 0);
     }
     Destroy_SuperMatrix_Store(&B); Destroy_SuperMatrix_Store(&X); SUPERLU_FREE(b); SUPERLU_FREE(x); free(bin); free(vin); free(Xtrue); free(B0); free(ferr); free(berr);
 }
@@ -397,7 +397,15 @@ static void cmd_destroy(kv_t *K)
 {
     long live0 = vrt_mem_live_count();
     destroy_LU();
-    vrt_log_raw("\"e\":\"Call\",\"call\":\"destroy\",\"live0\":%ld,\"live1\":%ld", live0, vrt_mem_live_count());
+    {   /* sites of the library allocations that are still live (for leak reports) */
+	static vrt_block_t blk[4096]; long nb = vrt_mem_live(blk, 4096), i, m = 0; char sites[2048]; sites[0] = 0;
+	for (i = 0; i < nb && m < 12; ++i) if (blk[i].file && strstr(blk[i].file, "/SRC/")) {
+	    const char *b = strrchr(blk[i].file, '/'); char one[96];
+	    snprintf(one, sizeof one, "%s\"%s:%d\"", m ? "," : "", b ? b + 1 : blk[i].file, blk[i].line);
+	    if (strlen(sites) + strlen(one) < sizeof sites - 2) { strcat(sites, one); ++m; }
+	}
+	vrt_log_raw("\"e\":\"Call\",\"call\":\"destroy\",\"live0\":%ld,\"live1\":%ld,\"libsites\":[%s]", live0, vrt_mem_live_count(), sites);
+    }
     (void) K;
 }
 
